@@ -82,8 +82,30 @@ type Sys struct {
 	rich   bool
 }
 
+// duidOf: the client identifiers are chosen adversarially: B's DUID is A's plus one byte (A is
+// a strict prefix of B, same DUID type), C is of another DUID kind.
 func duidOf(client string) []byte {
+	switch client {
+	case "B":
+		return []byte{0, 3, 0, 1, 2, 0, 0, 0, 0, 'A', 0}
+	case "C":
+		return []byte{0, 2, 0, 0, 0x9, 0xbf, 'C'}
+	}
 	return []byte{0, 3, 0, 1, 2, 0, 0, 0, 0, client[0]}
+}
+
+// iaidOf: IAIDs with the high bit set, zero and all-ones.
+func iaidOf(i int) uint32 {
+	return []uint32{0x80000001, 0, 0xffffffff, 0x7fffffff, 1, 2, 3, 4}[i%8]
+}
+
+func iaidIndex(id uint32) int {
+	for i := 0; i < 8; i++ {
+		if iaidOf(i) == id {
+			return i
+		}
+	}
+	return -1
 }
 
 func NewSys(r *ev.Run, id string, p Pool, nclients int, rich bool) *Sys {
@@ -323,7 +345,7 @@ func buildReq(o Op) []byte {
 		m.Opts = append(m.Opts, pkt.Opt6{Code: 2, Data: []byte{0, 3, 0, 1, 0, 0xde, 0xad, 0xbe, 0xef, 0}})
 	}
 	for i, hs := range o.IAPDs {
-		d := binary.BigEndian.AppendUint32(nil, uint32(0x1000+i))
+		d := binary.BigEndian.AppendUint32(nil, iaidOf(i))
 		d = append(d, 0, 0, 0, 0, 0, 0, 0, 0)
 		for _, h := range hs {
 			ip, ipn, err := net.ParseCIDR(h)
@@ -517,8 +539,9 @@ func (s *Sys) Apply(op Op, live bool) (obs string) {
 	if live {
 		var wantIDs, gotIDs []int
 		for i := range op.IAPDs {
-			wantIDs = append(wantIDs, 0x1000+i)
+			wantIDs = append(wantIDs, int(iaidOf(i)))
 		}
+		sort.Ints(wantIDs)
 		for _, pd := range pds {
 			gotIDs = append(gotIDs, int(pd.iaid))
 		}
@@ -549,7 +572,7 @@ func (s *Sys) Apply(op Op, live bool) (obs string) {
 		for _, p := range prevGot {
 			heldSoFar[p] = true
 		}
-		idx := int(pd.iaid) - 0x1000
+		idx := iaidIndex(pd.iaid)
 		if live && len(pd.prefixes) == 0 && pd.status != 6 {
 			s.violate("C08", "empty-iapd", fmt.Sprintf("IA_PD %x answered with neither a prefix nor NoPrefixAvail (status %d)", pd.iaid, pd.status))
 		}
